@@ -147,6 +147,31 @@ fn fault_case(rec: &mut Rec, ctx: &Ctx, idx: u64, rng: &mut ChaCha20Rng) {
   }
   for (pname, pos) in classes {
     let (orig_parsed, _) = AdssShare::decode_with_fields(&a.enc[pos]).expect("layout");
+    // whole-element faults: x and y replaced by structured field values
+    for (fname, range) in fields_list(&f) {
+      if range.len() != 24 {
+        continue;
+      }
+      let mut one = [0u8; 24];
+      one[0] = 1;
+      let pm1 = crate::bigfield::to_le24(&(crate::bigfield::p() - num_bigint::BigUint::from(1u32)));
+      let mut two128 = [0u8; 24];
+      two128[16] = 1;
+      for (vname, val) in [("zero", [0u8; 24]), ("one", one), ("p-1", pm1), ("2^128", two128)] {
+        let mut coll = a.enc.clone();
+        if coll[pos][range.clone()] == val[..] {
+          continue;
+        }
+        coll[pos][range.clone()].copy_from_slice(&val);
+        let still_valid_share = t == 1 && fname == "x";
+        let what = format!("{}:={}@{}", fname, vname, pname);
+        rec.case(&(fname, pname, "element", vname, t));
+        judge(rec, &coll, &a.m, pos == 0 && !still_valid_share && ml + rl >= 16, &what, star_level, || {
+          json!({"kind":"element-fault","field":fname,"value":vname,"share_position":pos,"t":t,
+                 "collection_hex": coll.iter().map(|b| hex(b)).collect::<Vec<_>>(), "expected_message": hex(&a.m)})
+        });
+      }
+    }
     // value-level faults of the 4-byte fields (threshold and the three length prefixes)
     for (fname, range) in fields_list(&f) {
       if range.len() != 4 || !(fname == "threshold" || fname.ends_with("_len")) {
@@ -252,6 +277,22 @@ fn mixture_case(rec: &mut Rec, _ctx: &Ctx, idx: u64, rng: &mut ChaCha20Rng) {
       json!({"kind":"mixture","collection":coll.iter().map(|(s,i)| json!([s,i])).collect::<Vec<_>>(),"thresholds":ts,
              "collection_hex": bytes.iter().map(|b| hex(b)).collect::<Vec<_>>(), "expected_message": hex(&sh[first].m)})
     });
+    // a first share of sharing 0 whose point is a structured value, followed by enough shares of sharing 1
+    if round % 4 == 2 {
+      let (pa, _) = AdssShare::decode_with_fields(&sh[0].enc[0]).unwrap();
+      let mut one = [0u8; 24];
+      one[0] = 1;
+      for (vname, val) in [("zero", [0u8; 24]), ("one", one)] {
+        let mut x = pa.clone();
+        x.s.x = val;
+        let mut bytes: Vec<Vec<u8>> = vec![x.encode()];
+        bytes.extend(sh[1].enc.iter().cloned());
+        rec.case(&("first-x-structured", vname));
+        judge(rec, &bytes, &sh[0].m, false, &format!("first-share-x:={}+other-sharing", vname), false, || {
+          json!({"kind":"first-x-structured","value":vname,"collection_hex": bytes.iter().map(|b| hex(b)).collect::<Vec<_>>(), "expected_message": hex(&sh[0].m)})
+        });
+      }
+    }
     // cross-grafting: the first share of sharing A carrying C/D/J/threshold of sharing B
     if round % 4 == 1 {
       let (pa, _) = AdssShare::decode_with_fields(&sh[0].enc[0]).unwrap();
